@@ -134,6 +134,10 @@ def run(an: Analysis, rep):
                              "normal form decodes to the normal form again (docstring slot, first-use order of the tables, jump targets)")
     rep.run(_c03y.r03e, an, shy)
     rep.run(_c03y.r03t, an, shy)
+    rep.run(_c03y.r03y, an, shy)
+    from . import c05 as _c05k6
+    rep.run(_c05k6.r05k, an, _SR6(rep, "R06.K2", "constants are handed to CodeType with value and type unchanged (shared with C05's R05.K2): a constant rewritten on the way (a str inside a frozenset taken "
+                                                 "apart like a tuple) decodes to other data than the normal form it was written from"))
     from . import c02 as _c02g, c04 as _c04g
     rep.run(_c02g.r02f, an, _SR6(rep, "R06.G", "the decoder's instruction function folded over witness code units (shared with C02's R02.F): the jump structure of the normal form is the one CPython executes, "
                                                "so re-encoding and decoding it again finds the same blocks"))
